@@ -65,6 +65,12 @@ def judge(cfg, r):
     if r.get("scratch") != "1":
         out.append(("scratch:%s:pre%d:post%d" % (tag, cfg["pre"], cfg["post"]),
                     "the result of a cycle depends on the old contents of the work vectors (difference %.3g)" % gl.num(r, "scratchdiff", -1)))
+    if "compworst" in r:
+        if not (gl.num(r, "compworst") <= THR_ALG):
+            out.append(("composition:%s:pre%d:post%d" % (tag, cfg["pre"], cfg["post"]),
+                        "a two-level cycle with %d pre- and %d post-smoothing steps differs from S^post o (coarse-grid correction) o S^pre composed "
+                        "from the level's public smoother and the public transfer / residual / coarse-solve operators by %.3g (relative)" %
+                        (cfg["pre"], cfg["post"], gl.num(r, "compworst"))))
     if "algworst" in r:
         if not (gl.num(r, "algworst") <= THR_ALG):
             out.append(("algebraic-correction:" + tag, "without smoothing the two-level cycle differs from u + P A_c^-1 R (f - A u) formed "
@@ -81,6 +87,7 @@ def main(tier):
     sl = [(cid, l + " do_exact=0") for (cid, l), cfg in zip(lines, cs) if cfg["nr_exp"] == 3][::4]
     res_san = gl.run_cases(san, sl, chunk=4)
     worst_fix, min_control, worst_alg, algcols, transitions = 0.0, 1e9, 0.0, 0, 0
+    worst_comp = 0.0
     for i, cfg in enumerate(cs):
         cid = "k%05d" % i
         for rr, build in ((res.get(cid, {"status": "crash", "kind": "missing"}), "rel"),) + (((res_san[cid], "san"),) if cid in res_san else ()):
@@ -92,6 +99,8 @@ def main(tier):
                     worst_fix = max(worst_fix, gl.num(rr, "fixmove"))
                 if "controlmove" in rr:
                     min_control = min(min_control, gl.num(rr, "controlmove"))
+                if "compworst" in rr:
+                    worst_comp = max(worst_comp, gl.num(rr, "compworst"))
                 if "algworst" in rr:
                     worst_alg = max(worst_alg, gl.num(rr, "algworst"))
                     algcols += int(rr["algcols"])
@@ -109,7 +118,7 @@ def main(tier):
         "states": len(cs), "transitions": transitions, "traces_validated_against_impl": transitions,
         "evaluations": len(cs), "distinct_nontrivial": len(cs),
         "worst_fixed_point_move": worst_fix, "smallest_control_move": min_control, "worst_algebraic_difference": worst_alg,
-        "algebraic_columns": algcols, "sanitizer_slice": len(sl),
+        "algebraic_columns": algcols, "worst_composition_difference": worst_comp, "sanitizer_slice": len(sl),
         "thresholds": {"fixed_point": THR_FIX, "control_min": MIN_CONTROL, "algebraic": THR_ALG},
         "rule": "states = (levels L in {2,3(,4)} via grid size / level cap) x {V,W,F} x {plain, implicitly extrapolated} x pre,post in "
                 "{0,1,2}^2 x strategy x interior boundary, problems cycled; transitions = cycle calls: from the dense exact solution of "
